@@ -44,13 +44,10 @@ theorem boxChildrenOf_agree : ∀ (xs ys : List (GridChildStyle α)), AgreeG xs 
   | _ :: _, [], h => by simp only [AgreeG] at h
   | x :: xs, y :: ys, h => by
     have ih := boxChildrenOf_agree xs ys h.2
-    unfold boxChildrenOf at ih ⊢
+    rw [boxChildrenOf_cons, boxChildrenOf_cons]
     rcases h.1 with rfl | ⟨hx, hy⟩
-    · simp only [List.filter_cons]
-      split
-      · simp only [List.map_cons, ih]
-      · exact ih
-    · simp only [List.filter_cons, hx, hy, Bool.not_true, Bool.false_eq_true, if_false]
+    · rw [ih]
+    · simp only [hx, hy, Bool.not_true, Bool.false_and, Bool.false_eq_true, if_false]
       exact ih
 
 theorem inFlowFrom_agree : ∀ (xs ys : List (GridChildStyle α)) (n : Nat), AgreeG xs ys →
